@@ -1030,6 +1030,101 @@ fn finish_counts(run: &mut Run<'_>, complete: bool) {
     run.rep.sample(s);
 }
 
+// ------------------------------------------------------------------------------------------------
+// extra scenario: the limit is reached through handles owned by the garbage itself, and the over-limit clone is attempted
+// by a callback of the collection that reclaims it (the target is in the collector's lists at that moment)
+
+pub struct GpTarget {
+    pool: RefCell<Option<Cc<GpPool>>>,
+}
+pub struct GpPool {
+    items: RefCell<Vec<Cc<GpTarget>>>,
+}
+unsafe impl Trace for GpTarget {
+    fn trace(&self, ctx: &mut Context<'_>) {
+        self.pool.trace(ctx);
+    }
+}
+unsafe impl Trace for GpPool {
+    fn trace(&self, ctx: &mut Context<'_>) {
+        self.items.trace(ctx);
+    }
+}
+impl Finalize for GpPool {}
+
+thread_local! {
+    /// (0 = probe did not run, 1 = the clone panicked, 2 = the clone returned, count before, count after)
+    static GP: Cell<(u8, u32, u32)> = Cell::new((0, 0, 0));
+}
+
+fn gp_probe(t: &GpTarget) {
+    let pool = match t.pool.try_borrow() {
+        Ok(p) => p,
+        Err(_) => return,
+    };
+    let Some(p) = pool.as_ref() else { return };
+    let Ok(items) = p.items.try_borrow() else { return };
+    let Some(first) = items.first() else { return };
+    if GP.with(|g| g.get().0) != 0 {
+        return;
+    }
+    let before = first.strong_count();
+    let r = catch_unwind(AssertUnwindSafe(|| first.clone()));
+    let after = first.strong_count();
+    let code = match r {
+        Ok(c) => {
+            // never release a handle the counter may not know about
+            std::mem::forget(c);
+            2
+        }
+        Err(_) => 1,
+    };
+    GP.with(|g| g.set((code, before, after)));
+}
+
+impl Finalize for GpTarget {
+    fn finalize(&self) {
+        gp_probe(self);
+    }
+}
+
+/// 16382 handles to one object, all owned by a container that forms a garbage cycle with it; the collection's finalizer
+/// (feature finalization) attempts clone number 16383: it must panic and leave the count unchanged.
+#[cfg(feature = "finalization")]
+fn garbage_pool_scenario(rep: &mut Report) {
+    let id_str = "garbagepool-fin".to_string();
+    let replay = vec!["--only".to_string(), id_str.clone()];
+    GP.with(|g| g.set((0, 0, 0)));
+    let t = Cc::new(GpTarget { pool: RefCell::new(None) });
+    let p = Cc::new(GpPool { items: RefCell::new(Vec::with_capacity(STRONG_MAX as usize)) });
+    *t.pool.borrow_mut() = Some(p.clone());
+    {
+        let mut v = p.items.borrow_mut();
+        for _ in 0..(STRONG_MAX - 1) {
+            v.push(t.clone());
+        }
+        v.push(t); // the program's own handle moves into the container: 16382 handles, none held by the program
+    }
+    drop(p);
+    collect_until_quiet();
+    rep.evaluations += 1;
+    rep.count("garbage_pool_probes", 1);
+    let (code, before, after) = GP.with(|g| g.get());
+    let mut viol = |rep: &mut Report, oracle: &str, detail: String| {
+        rep.viol(P, oracle, &format!("{}:{}:garbagepool:fin", P, oracle), &format!("scenario {} [{} {}]: {}", id_str, features_string(), profile_string(), detail), &replay);
+    };
+    match code {
+        0 => rep.inconclusive(format!("{}: the finalizer probe did not run", id_str)),
+        1 => {
+            rep.count("panics_observed", 1);
+            if before as i64 != STRONG_MAX || after != before {
+                viol(rep, "count_changed", format!("strong_count was {} before and {} after the refused clone made from a finalizer (expected {} both times)", before, after, STRONG_MAX));
+            }
+        }
+        _ => viol(rep, "no_panic", format!("Cc::clone number {} made from a finalizer of the collection that reclaims the object returned instead of panicking (strong_count {} before, {} after)", STRONG_MAX + 1, before, after)),
+    }
+}
+
 /// A panic that escaped a scenario: the crate's own messages (its panicking entry points are `#[track_caller]`, so
 /// the location is in this file) are the crate's behaviour; anything else raised from this file is a harness bug.
 /// Weak limit reached on an allocation whose value is already gone (by reference counting, by the collector, by
@@ -1243,6 +1338,27 @@ fn main() {
                     std::process::exit(3);
                 }
                 rep.viol(P, "unexpected_panic", &format!("{}:unexpected_panic:wclone_dead:escaped:{}", P, how), &format!("scenario {}: a panic escaped from the crate: {}", idn, m), &["--only".to_string(), idn.clone()]);
+            }
+        }
+    }
+    #[cfg(feature = "finalization")]
+    {
+        let idn = "garbagepool-fin".to_string();
+        let pick = match &only {
+            Some(id) => *id == idn,
+            None => shard == 0 && !args.flag("--reduced"),
+        };
+        if pick {
+            ran += 1;
+            let r = catch_unwind(AssertUnwindSafe(|| garbage_pool_scenario(&mut rep)));
+            if r.is_err() {
+                let m = last_panic();
+                if is_harness_bug(&m) {
+                    eprintln!("harness error in scenario {}: {}", idn, m);
+                    rep.emit();
+                    std::process::exit(3);
+                }
+                rep.viol(P, "unexpected_panic", &format!("{}:unexpected_panic:garbagepool:escaped", P), &format!("scenario {}: a panic escaped from the crate: {}", idn, m), &["--only".to_string(), idn.clone()]);
             }
         }
     }
